@@ -88,4 +88,58 @@ PROPS = {
         require=["room_fills", "states_with_tombstones", "recipe_Saturated", "recipe_Fresh", "recipe_Full"],
         assumptions=COMMON_ASSUME,
     ),
+    "C03": dict(
+        level="exploration",
+        rule=("for every way out of a collection — map: remove, remove_entry, entry.remove, replace_entry_with, overwrite, clear, retain, extract_if, drain, into_iter, "
+              "into_keys, into_values, shrink, shrink of an emptied table, clone_from into an occupied target, drop; set and table counterparts; zero-sized elements — "
+              "started from 11 state recipes (incl. tombstoned and just-rehashed tables) and cut at every consumption point 0..len (all cuts for len<=24, sampled above), "
+              "the element registry and the allocator ledger are evaluated when the collection and everything handed to the caller have been dropped: no serial dropped "
+              "twice, none left live, values returned to the caller still live when received, every block freed once with its layout, allocation_size()==bytes held, no "
+              "block for a never-used collection. evaluations = exits executed and settled; distinct = (exit, table class, tombstones, cut class, element layout)"),
+        lanes=dict(
+            quick=lanes(("dbg", 8, 12000), ("generic", 4, 12000), ("asan", 4, 12000)),
+            thorough=lanes(("dbg", 16, 120000), ("generic", 16, 120000), ("asan", 16, 120000), ("miri", 16, 240000)),
+        ),
+        assumptions=COMMON_ASSUME,
+    ),
+    "C09": dict(
+        level="exploration",
+        rule=("every iterator of the statement (map: iter, iter_mut, keys, values, values_mut, into_iter, into_keys, into_values, drain; set: iter, into_iter, drain; "
+              "table: iter, iter_mut, into_iter, drain; HashTable of zero-sized duplicates) over states from 11 recipes x 13 hash plans, driven for every prefix length "
+              "p (all p for len<=20, sampled above) in 4 modes: next() to exhaustion + 3 extra calls, fold from p, for_each from p, clone at p with both copies run "
+              "independently; size_hint()==(r,Some(r)) and len()==r are checked at every step and the yielded multiset is compared with the contents; default-"
+              "constructed iterators must be empty. evaluations = iterator runs; distinct = (iterator kind, mode, table class, tombstones, prefix class, element)"),
+        lanes=dict(
+            quick=lanes(("dbg", 10, 12000), ("generic", 6, 12000)),
+            thorough=lanes(("dbg", 16, 120000), ("generic", 16, 120000), ("miri", 8, 180000)),
+        ),
+        assumptions=COMMON_ASSUME,
+    ),
+    "C10": dict(
+        level="exploration",
+        rule=("retain / extract_if / drain on HashMap, HashSet and HashTable (7 instantiations) from 11 state recipes; the 'true' set ranges over every subset of the "
+              "stored elements for len<=6 (len<=10 in the thorough tier) and random subsets above; extract_if and drain are dropped at every early-drop class (0, 1, n-1, "
+              "random, exhausted). Checked: predicate argument multiset == contents (once per element), survivors == selected set, &mut edits persist, yielded == "
+              "visited-and-true, unvisited elements stay, drain leaves an empty usable collection with its block. evaluations = operation runs checked; distinct = "
+              "(collection, operation, cut class, table class, tombstones, subset class)"),
+        lanes=dict(
+            quick=lanes(("dbg", 10, 12000), ("generic", 6, 12000)),
+            thorough=lanes(("dbg", 16, 120000), ("generic", 16, 120000), ("asan", 8, 60000)),
+        ),
+        assumptions=COMMON_ASSUME,
+    ),
+    "C11": dict(
+        level="exploration",
+        rule=("ordered pairs (target recipe, source recipe) over 11 x 11 state recipes with independently drawn hash plans and salts: clone()/clone_from on HashMap "
+              "(4 element pairs), HashSet and HashTable; checked: result == source in both directions and by contents, every source key findable in the clone, number "
+              "of Clone calls == source length and number of drops == old target length (registry), later mutation of either side invisible in the other; == between "
+              "collections holding the same pairs built by different histories, capacities and differently seeded hashers, and != after one value changes. "
+              "evaluations = pairs checked; distinct = (case, clone_from path [source unallocated / same buckets / different buckets], target class, tombstones, size order)"),
+        lanes=dict(
+            quick=lanes(("dbg", 10, 12000), ("generic", 6, 12000)),
+            thorough=lanes(("dbg", 16, 120000), ("generic", 16, 120000), ("miri", 8, 180000)),
+        ),
+        require=["clone_from_source_unallocated", "clone_from_same_buckets", "clone_from_different_buckets", "eq_same_contents_checked"],
+        assumptions=COMMON_ASSUME,
+    ),
 }
